@@ -146,6 +146,32 @@ pub fn run(tier: Tier) -> Report {
             }
         };
         rep.eval(pts.len() as u64 * 8);
+        // the library's own evaluation of the same factors (Jacobian::new(..).factors(), on the ellipsoid of the
+        // projection) against the harness's differentiation, on every seventh lattice point away from the poles
+        if let Ok(ellipsoid) = Ellipsoid::named(if p.op == "webmerc" && ei == 0 { "WGS84" } else { ellps.as_str() }) {
+            for (pt, d) in pts.iter().zip(der.iter()).step_by(7) {
+                if pt[1].abs() > 1.48 || !(d.h.is_finite() && d.k.is_finite()) {
+                    continue;
+                }
+                rep.eval(4);
+                let f = match catch(|| Jacobian::new(&ctx, op, [1f64.to_degrees(), 1.], [false, false], ellipsoid, Coor2D::raw(pt[0], pt[1])).map(|j| j.factors())) {
+                    Ok(Ok(f)) => f,
+                    other => {
+                        rep.violation(&format!("the library's Jacobian cannot be evaluated inside the domain / {}", p.op), json!({"def": def, "lon_deg": pt[0].to_degrees(), "lat_deg": pt[1].to_degrees(), "result": format!("{:?}", other.map(|r| r.is_ok()))}));
+                        break;
+                    }
+                };
+                let rel = |a: f64, b: f64| (a - b).abs() / b.abs().max(1e-12);
+                if rel(f.meridional_scale, d.h) > 2e-6 || rel(f.parallel_scale, d.k) > 2e-6 || rel(f.areal_scale, d.area) > 4e-6 {
+                    rep.violation(
+                        &format!("the library's own scale factors (Jacobian / Factors) differ from the differentiated projection / {}", p.op),
+                        json!({"def": def, "ellps": ellps, "lon_deg": pt[0].to_degrees(), "lat_deg": pt[1].to_degrees(),
+                               "library": {"h": f.meridional_scale, "k": f.parallel_scale, "areal": f.areal_scale}, "harness": {"h": d.h, "k": d.k, "areal": d.area}}),
+                    );
+                    break;
+                }
+            }
+        }
         let mut local = HashSet::new();
         let mut wmax = 0f64;
         for (pt, d) in pts.iter().zip(der.iter()) {
